@@ -1890,6 +1890,14 @@ func c08GenInspect(c *Ctx, add func(comp, tag, name string, data []byte), addBig
 		rep("pem-headers"+s, "p.pem", "-----BEGIN A-----\n", "k: v\n", "\nAAAA\n-----END A-----\n", sz)
 		rep("armor-long-header"+s, "k.asc", "-----BEGIN PGP PUBLIC KEY BLOCK-----\nVersion: ", "x", "\n\nAAAA\n-----END PGP PUBLIC KEY BLOCK-----\n", sz)
 		rep("armor-many-headers"+s, "k.asc", "-----BEGIN PGP PUBLIC KEY BLOCK-----\n", "Comment: x\n", "\nAAAA\n-----END PGP PUBLIC KEY BLOCK-----\n", sz)
+		rep("armor-many-long-headers"+s, "k.asc", "-----BEGIN PGP PUBLIC KEY BLOCK-----\n", "Comment: "+strings.Repeat("x", 120)+"\n", "\nAAAA\n-----END PGP PUBLIC KEY BLOCK-----\n", sz)
+		rep("armor-long-short-headers"+s, "k.asc", "-----BEGIN PGP PUBLIC KEY BLOCK-----\n", "Comment: "+strings.Repeat("x", 120)+"\nVersion: 1\n", "\nAAAA\n-----END PGP PUBLIC KEY BLOCK-----\n", sz)
+		rep("armor-many-long-headers-real-key"+s, "k.asc", "-----BEGIN PGP PUBLIC KEY BLOCK-----\n", "Comment: "+strings.Repeat("y", 101)+"\n",
+			"\n"+strings.SplitN(string(armorPGP(rawPGPKey(nil))), "\n\n", 2)[1], sz)
+		rep("authorized_keys-bad-lines"+s, "authorized_keys", string(fixture("ssh/id_ed25519.pub")), "ssh-ed25519 AAAAC3NzaC1lZDI1NTE5AAAA\n", "", sz)
+		rep("authorized_keys-short-bad-lines"+s, "authorized_keys", string(fixture("ssh/id_ed25519.pub")), "x\n", "", sz/4)
+		rep("known_hosts-bad-lines"+s, "known_hosts", "host "+string(fixture("ssh/id_ed25519.pub")), "host ssh-ed25519 AAAAC3Nz\n", "", sz)
+		rep("known_hosts-short-bad-lines"+s, "known_hosts", "host "+string(fixture("ssh/id_ed25519.pub")), "y\n", "", sz/4)
 		rep("armor-long-body-line"+s, "k.asc", "-----BEGIN PGP PUBLIC KEY BLOCK-----\n\n", "A", "\n-----END PGP PUBLIC KEY BLOCK-----\n", sz)
 		rep("authorized_keys-lines"+s, "authorized_keys", "", string(fixture("ssh/id_ed25519.pub")), "", sz)
 		rep("known_hosts-lines"+s, "known_hosts", "", "host "+string(fixture("ssh/id_ed25519.pub")), "", sz)
